@@ -370,4 +370,4 @@ def make_spec(key):
 
 def run(ctx):
     for role in ("server", "client"):
-        ctx.explore(("c04", role, ctx.tier), time_budget=None if ctx.tier == "quick" else 500)
+        ctx.explore(("c04", role, ctx.tier), time_budget=None if ctx.tier == "quick" else 300)
